@@ -2460,6 +2460,36 @@ def rule_simdsib(rows, prop):
     return findings, n, samples
 
 
+def rule_simdsib_vector(rows, prop):
+    """R-SIMDSIB.vector: in the compiler-vector-extension back end a libm-style operation is written twice, lane by lane, with the single
+    precision builtin (`__builtin_<name>f`) for float data and the double precision one (`__builtin_<name>`) otherwise. The two branches
+    must call the same function up to the `f` suffix, with the same arguments, and the function must be the one the operation is named after."""
+    findings, n, samples = [], 0, []
+    for r in rows:
+        if "fn" not in r or r.get("lambda") or "simd_op_t<" not in r["fn"] or not r["file"].endswith("/eval/simd/vector_extension.hpp"):
+            continue
+        op = r["fn"].split("::")[-1]
+        calls = [f for f in r["facts"] if f["k"] == "call" and f["a"].startswith("__builtin_") and not f["a"].startswith("__builtin_shuffle")]
+        if len(calls) < 2:
+            continue
+        n += 1
+        names = [c["a"][len("__builtin_"):] for c in calls]
+        args = set(c["b"][c["b"].index("("):] for c in calls)
+        single = [x for x in names if x.endswith("f") and x[:-1] in [y for y in names] + [x[:-1]]]
+        bases = set(x[:-1] if (x.endswith("f") and (x[:-1] in names or all(y == x for y in names))) else x for x in names)
+        ok = len(set(names)) == 2 and len(bases) == 1 and len(args) == 1
+        if ok:
+            base = list(bases)[0]
+            fl, db = base + "f", base
+            # the float branch is the first one (under `is_same_v<data_t,float>`)
+            ok = names[0] == fl and names[-1] == db and base.endswith(op.rstrip("_"))
+        if not ok:
+            findings.append(finding("R-SIMDSIB", prop, r, " | ".join(c["b"] for c in calls), "single and double precision branches of vector-extension op '%s' do not call one function in its two precisions (float branch first) named after the operation" % op, calls[-1].get("line")))
+        elif len(samples) < 2:
+            samples.append("R-SIMDSIB.vector %s: %s ~ %s" % (op, calls[0]["b"], calls[-1]["b"]))
+    return findings, n, samples
+
+
 def comp_simdsib(prop, tier, comp, work):
     t0 = time.time()
     tu = os.path.join(work, "umb_simd_sib.cpp")
@@ -2471,7 +2501,16 @@ def comp_simdsib(prop, tier, comp, work):
     f, n, samples = rule_simdsib(rows, prop)
     if n == 0:
         out["broken"].append("R-SIMDSIB: no float/double operation pair found in the x86 back ends (anchor vanished)")
-    out.update(findings=f, instances={"R-SIMDSIB": n}, evaluations=n, distinct_nontrivial=n - len(f), samples=samples, wall_s=round(time.time() - t0, 2))
+    tu2 = os.path.join(work, "umb_simd_vx.cpp")
+    open(tu2, "w").write('#include "nmtools/array/eval/simd/vector_extension.hpp"\n')
+    rows2, err2, _ = run_nmlint(tu2, filters=["include/nmtools/array/eval/simd/vector_extension.hpp"], flags=["-mavx2", "-mfma"])
+    if err2:
+        out["broken"].append(err2); return out
+    f2, n2, s2 = rule_simdsib_vector(rows2, prop)
+    if n2 == 0:
+        out["broken"].append("R-SIMDSIB.vector: no lane-by-lane builtin pair found in the vector-extension back end (anchor vanished)")
+    f += f2; samples += s2
+    out.update(findings=f, instances={"R-SIMDSIB": n, "R-SIMDSIB.vector": n2}, evaluations=n + n2, distinct_nontrivial=n + n2 - len(f), samples=samples, wall_s=round(time.time() - t0, 2))
     return out
 
 
